@@ -696,9 +696,11 @@ pub fn on_hdrop_end(target: Oid, panicking: bool) {
         if b.vchildren.contains(&target) || group > 0 {
             m.objs[target as usize].panicked = true;
         }
-        // obligations are not checked for an interrupted teardown (C11 allows
-        // leaks); pending weak checks are dropped with it
-        return;
+        // the teardown was interrupted: its memory may leak (C11) and pending
+        // Weak observations are dropped with it; but every member's destructor
+        // has still run by now (the library's value buffer keeps destroying the
+        // remaining members while the panic propagates), so the obligation of
+        // C03 is checked below as usual
     }
     if b.inert && !b.vchildren.is_empty() {
         let msg = format!(
@@ -730,7 +732,7 @@ pub fn on_hdrop_end(target: Oid, panicking: bool) {
     } else if !b.inert && !b.covered && group >= 2 {
         label(lab::COLLECT_NO_OBLIG);
     }
-    for &(t, is_some) in &b.pending_weak {
+    for &(t, is_some) in b.pending_weak.iter().filter(|_| !panicking) {
         let destroyed = m.objs[t as usize].st != St::Alive;
         if is_some && destroyed {
             violate_soft(View::Weak, &format!("Weak::upgrade returned a handle to object {} from inside a destructor of the group it was being destroyed with", t));
@@ -739,7 +741,7 @@ pub fn on_hdrop_end(target: Oid, panicking: bool) {
             violate_soft(View::Weak, &format!("Weak::upgrade returned None for object {} although it was not destroyed", t));
         }
     }
-    if b.cost.valid && b.cost.table_empty && b.vchildren.is_empty() {
+    if !panicking && b.cost.valid && b.cost.table_empty && b.vchildren.is_empty() {
         count(ctr::COST_CHECKS, 1);
         let tc = after[0];
         let (al, fr) = (arena::st().n_alloc, arena::st().n_free);
